@@ -392,11 +392,19 @@ FailureReported(R) ==
 
 \* nothing is requested (beyond looking) when the CID is already pinned as asked
 NoRedundantRequest(R) ==
-    (/\ R.in.op = "pin" /\ R.in.mode \in {"recursive", "direct"}
-     /\ Has(R.in.prior.c1, R.in.mode)
+    (/\ R.in.op = "pin"
+     /\ Has(R.in.prior.c1, R.in.mode)     \* a depth-limited pin is held as a recursive pin
      /\ \A j \in ReqIdx(R) : Rq(R, j).ep = "ls" => Rq(R, j).beh = "ok")
     => /\ \A j \in ReqIdx(R) : Rq(R, j).ep = "ls"
        /\ R.out.swarm = {}
+
+\* PinLsCid against an honest daemon tells whether the CID is held in the mode
+\* the pin records (the other direction is part of SuccessSound)
+LsTruthful(R) ==
+    (/\ R.in.op = "lscid" /\ R.out.res = "ok"
+     /\ \A j \in ReqIdx(R) : Rq(R, j).beh = "ok"
+     /\ Has(R.out.pins.c1, R.in.mode))
+    => R.out.status = (IF R.in.mode = "direct" THEN "direct" ELSE "recursive")
 
 \* unpinning what is not pinned is a success
 UnpinIdempotent(R) ==
@@ -446,13 +454,14 @@ SourceKept(R) ==
         /\ \A j \in ReqIdx(R) : Rq(R, j).ep # "rm" /\ (Rq(R, j).ep = "update" => Rq(R, j).unpin = "false")
         /\ R.out.pins.c2 = R.in.prior.c2
 
-PredNames == <<"SuccessSound", "FailureReported", "NoRedundantRequest", "UnpinIdempotent",
+PredNames == <<"SuccessSound", "FailureReported", "NoRedundantRequest", "LsTruthful", "UnpinIdempotent",
                "StallGivesUp", "OriginsBestEffort", "CallReturns", "CancelPropagates",
                "UpdateOnlyIfRecursive", "SourceKept">>
 Pred(name, R) ==
     CASE name = "SuccessSound" -> SuccessSound(R)
       [] name = "FailureReported" -> FailureReported(R)
       [] name = "NoRedundantRequest" -> NoRedundantRequest(R)
+      [] name = "LsTruthful" -> LsTruthful(R)
       [] name = "UnpinIdempotent" -> UnpinIdempotent(R)
       [] name = "StallGivesUp" -> StallGivesUp(R)
       [] name = "OriginsBestEffort" -> OriginsBestEffort(R)
@@ -466,6 +475,7 @@ Done == pc = "done"
 InvSuccessSound   == Done => SuccessSound(Obs)
 InvFailureReported == Done => FailureReported(Obs)
 InvNoRedundant    == Done => NoRedundantRequest(Obs)
+InvLsTruthful     == Done => LsTruthful(Obs)
 InvUnpinIdempotent == Done => UnpinIdempotent(Obs)
 InvStallGivesUp   == Done => StallGivesUp(Obs)
 InvOriginsBestEffort == Done => OriginsBestEffort(Obs)
